@@ -38,8 +38,12 @@
 //	            a[i] = e, a[i] op= e, s.f = e, s.f op= e (functional update of arrays / records);
 //	            if / else if / else (with init statement), switch with or without tag (constant or
 //	            non-constant cases, default anywhere, no fallthrough/break), return, nested blocks,
-//	            calls of whitelisted result-less functions as statements;
+//	            calls of whitelisted result-less functions as statements; named results if the body
+//	            never mentions them; `defer func() { if err != nil { err = fmt.Errorf(...) } }()` (a
+//	            no-op under the nil / non-nil reduction of errors), no other defer;
 //	            loops: `for k, x := range e {...}` (e a []S / []*S / []byte; k, x new variables or _) and
+//	            `for k, r := range s` over a string (k = byte index, r = the decoded rune; GoSem.v
+//	            go_range_string / go_utf8_decode) and
 //	            `for i := 0; i < len(x); i++ {...}` (i an int, the body assigns neither i nor x) whose
 //	            body consists of statements of this subset, `continue` and `return`: translated to
 //	            GoSem.v's go_range (a fold over the list with early exit; the state = the locals
@@ -57,7 +61,9 @@
 //	            (integer bounds, constant or not; of a [N]byte array only as the source of copy or
 //	            the argument of a library reader),
 //	            types.Typ[k], the library functions math.Max/Min/IsNaN/Float32bits/Float32frombits/
-//	            Float64bits/Float64frombits, nlenc.Uint8/Uint16/Uint32/Uint64/Int32 and
+//	            Float64bits/Float64frombits, unicode.IsDigit/IsUpper/IsLower/IsLetter (WITHOUT a model:
+//	            they become leading parameters `Z -> bool` of every translated function that uses
+//	            them, directly or through a callee), nlenc.Uint8/Uint16/Uint32/Uint64/Int32 and
 //	            binary.LittleEndian.Uint16/Uint32/Uint64 (encoding/binary), and the
 //	            reinterpreting load *(*T)(unsafe.Pointer(&x)) of a local x for (x's type -> T) in
 //	            uint64->float32, uint32->float32, uint64->float64, float32->uint32, float64->uint64
@@ -188,6 +194,7 @@ var whitelist = []struct{ pkg, recv, name string }{
 	{"pkg/descriptor", "Signal", "ValueDescription"},
 	{"pkg/descriptor", "Signal", "UnmarshalValueDescription"},
 	{"pkg/dbc", "Identifier", "Validate"},
+	{"internal/identifiers", "", "IsCamelCase"},
 }
 
 // ---------------------------------------------------------------------------- errors
@@ -461,6 +468,7 @@ type fn struct {
 	res               *gtype   // nil: no result; otherwise the first result
 	results           []gtype  // all results
 	mut               *param   // pointer (or []byte) parameter written through, or nil
+	oracles           []string // uninterpreted library functions used (own and callees'): leading parameters
 	partial           bool     // contains an explicit bounds check `_ = b[k]`: result type option (None = panic)
 	state             int      // 1 = being analysed, 2 = analysed
 	text              string
@@ -742,7 +750,14 @@ func (t *translator) analyse(key string, from token.Pos) *fn {
 			if _, ok := intrinsicOf(callee); ok {
 				return true // semantics in GoSem*.v; the arguments are ordinary expressions
 			}
+			if o, ok := oracleOf(callee); ok {
+				f.addOracle(o)
+				return true
+			}
 			g := t.analyse(funcKey(callee), x.Pos())
+			for _, o := range g.oracles {
+				f.addOracle(o)
+			}
 			if g.partial {
 				t.failf(x.Pos(), "call of %s, which contains an explicit bounds check (may panic)", g.display)
 			}
@@ -1054,6 +1069,35 @@ func libKey(f *types.Func) (string, bool) {
 }
 
 const binLE = "encoding/binary.LittleEndian"
+
+// oracles: library functions WITHOUT a model (Unicode tables). A translated function that uses one
+// (directly or through a callee) takes it as a leading parameter of type Z -> bool; the lemma about
+// the function is then stated for EVERY such function, in particular the real one.
+var oracles = map[string]string{
+	"unicode.IsDigit":  "o_unicode_IsDigit",
+	"unicode.IsUpper":  "o_unicode_IsUpper",
+	"unicode.IsLower":  "o_unicode_IsLower",
+	"unicode.IsLetter": "o_unicode_IsLetter",
+}
+
+func oracleOf(f *types.Func) (string, bool) {
+	k, ok := libKey(f)
+	if !ok {
+		return "", false
+	}
+	o, ok := oracles[k]
+	return o, ok
+}
+
+func (f *fn) addOracle(o string) {
+	for _, x := range f.oracles {
+		if x == o {
+			return
+		}
+	}
+	f.oracles = append(f.oracles, o)
+	sort.Strings(f.oracles)
+}
 
 var putIntrinsics = map[string]putIntrinsic{
 	nlencPath + ".PutUint8":  {"nlenc_PutUint8", 1, gtype{k: kInt, bits: 8}, false},
@@ -1418,6 +1462,18 @@ func (c *fctx) expr(e ast.Expr) string {
 		if _, ok := putIntrinsicOf(callee); ok {
 			t.failf(x.Pos(), "%s.%s used as an expression", callee.Pkg().Name(), callee.Name())
 		}
+		if o, ok := oracleOf(callee); ok {
+			if len(x.Args) != 1 {
+				t.failf(x.Pos(), "call of %s.%s with %d arguments", callee.Pkg().Name(), callee.Name(), len(x.Args))
+			}
+			if a := c.typeOf(x.Args[0]); a.k != kInt || !a.signed || a.bits != 32 {
+				t.failf(x.Pos(), "argument of %s.%s is not a rune", callee.Pkg().Name(), callee.Name())
+			}
+			if r := c.typeOf(x); r.k != kBool {
+				t.failf(x.Pos(), "result of %s.%s is not a bool", callee.Pkg().Name(), callee.Name())
+			}
+			return fmt.Sprintf("(%s %s)", o, c.expr(x.Args[0]))
+		}
 		if in, ok := intrinsicOf(callee); ok {
 			if len(x.Args) != len(in.params) || x.Ellipsis.IsValid() {
 				t.failf(x.Pos(), "call of %s.%s with %d arguments", callee.Pkg().Path(), callee.Name(), len(x.Args))
@@ -1479,6 +1535,7 @@ func (c *fctx) structVal(e ast.Expr) string {
 func (c *fctx) call(x *ast.CallExpr, g *fn) string {
 	args := c.t.callArgs(c.info, x, g)
 	parts := []string{g.coq}
+	parts = append(parts, g.oracles...)
 	for i, a := range args {
 		want := g.params[i].g
 		a = ast.Unparen(a)
@@ -2467,6 +2524,10 @@ func (t *translator) translate(f *fn) {
 	defer func() { t.cur = nil }()
 	c := &fctx{t: t, f: f, info: f.d.pkg.TypesInfo, vars: map[types.Object]string{}, taken: map[string]bool{}, optVars: map[types.Object]bool{}}
 	var ps []string
+	for _, o := range f.oracles {
+		c.taken[o] = true
+		ps = append(ps, fmt.Sprintf("(%s : Z -> bool)", o))
+	}
 	for _, p := range f.params {
 		p.name = c.declare(p.v)
 		ps = append(ps, fmt.Sprintf("(%s : %s)", p.name, p.g.coq()))
